@@ -48,7 +48,7 @@ def problem_spec(draw):
     m = draw(st.integers(1, 3))
     crit = [draw(st.sampled_from(["minimize", "maximize", None])) for _ in range(m)]
     ncon = draw(st.sampled_from([0, 0, 1, 2]))
-    ret = draw(st.sampled_from(["list", "list", "tuple"]))
+    ret = draw(st.sampled_from(["list", "list", "tuple", "ndarray"]))   # ndarray: a float64 array, as vectorised models return
     return {"n": n, "m": m, "crit": crit, "ncon": ncon, "ret": ret}
 
 
@@ -96,6 +96,15 @@ def _cost_obj(c):
     return c["v"]
 
 
+def _ret(out, how):
+    if how == "tuple":
+        return tuple(out)
+    if how == "ndarray":
+        import numpy as np
+        return np.array([float(v) for v in out], dtype=float)
+    return out
+
+
 def _mk(spec, designs, log, glog=None, fail_key=None, retried=None):
     table = {tuple(d["v"]): d for d in designs}
     fired = []
@@ -109,12 +118,12 @@ def _mk(spec, designs, log, glog=None, fail_key=None, retried=None):
             # the re-sampled replacement of the failed design: a fresh vector the table does not know
             out = [0.5 + j for j in range(spec["m"])]
             retried.append((list(ind.vector), out))
-            return tuple(out) if spec["ret"] == "tuple" else out
+            return _ret(out, spec["ret"])
         log.append(list(ind.vector))
         if key not in table:
             raise HarnessError("objective asked for an unknown design %r" % (key,))
         out = [_cost_obj(c) for c in table[key]["c"]]
-        return tuple(out) if spec["ret"] == "tuple" else out
+        return _ret(out, spec["ret"])
 
     def con(x):
         key = tuple(x)
